@@ -106,15 +106,19 @@ def check(s, t, rng):
         e = math.hypot(cps[1][0] - cps[0][0], cps[1][1] - cps[0][1])
         if abs(L - e) > 1e-12 * max(1, e): fails.append('line length is not Euclidean')
     tolabs = 0.02 * true + 1e-9
+    # the transformed control points are rounded to the grid of doubles at their own magnitude: a short segment far from the origin changes by a few
+    # ulps of its COORDINATES, not of its length (that is the stated float tolerance of C01, not a defect of length)
+    mag = max(abs(c) for p in cps for c in p)
+    cs = lambda m: 32 * math.ulp(max(1.0, m))
     a, b = s.splitAtTime(t)
     if abs(a.length + b.length - L) > 2 * tolabs: fails.append(f'not additive under splitting at {t}: {a.length + b.length!r} vs {L!r}')
     if abs(s.reversed().length - L) > 1e-9 * max(1, L): fails.append('changed by reversal')
     v = P(rng.uniform(-500, 500), rng.uniform(-500, 500))
-    if abs(s.translated(v).length - L) > 1e-7 * max(1, L): fails.append(f'changed by translation: {s.translated(v).length!r} vs {L!r}')
+    if abs(s.translated(v).length - L) > 1e-7 * max(1, L) + cs(mag + 500): fails.append(f'changed by translation: {s.translated(v).length!r} vs {L!r}')
     ang = rng.uniform(-6, 6)
-    if abs(s.rotated(P(rng.uniform(-100, 100), rng.uniform(-100, 100)), ang).length - L) > 1e-7 * max(1, L): fails.append('changed by rotation')
+    if abs(s.rotated(P(rng.uniform(-100, 100), rng.uniform(-100, 100)), ang).length - L) > 1e-7 * max(1, L) + cs(2 * mag + 200): fails.append('changed by rotation')
     k = rng.choice([2.0, -0.5, rng.uniform(-3, 3)])
-    if abs(s.scaled(k).length - abs(k) * L) > 1e-9 * max(1, L) * max(1, abs(k)): fails.append(f'scaling by {k}')
+    if abs(s.scaled(k).length - abs(k) * L) > 1e-9 * max(1, L) * max(1, abs(k)) + cs(mag * max(1, abs(k))): fails.append(f'scaling by {k}')
     chord = math.hypot(cps[-1][0] - cps[0][0], cps[-1][1] - cps[0][1])
     poly = sum(math.hypot(q[0] - p[0], q[1] - p[1]) for p, q in zip(cps, cps[1:]))
     if L < chord - 1e-9 * max(1, poly): fails.append(f'length {L!r} less than the chord {chord!r}')
